@@ -37,6 +37,11 @@ AllOps(n) ==
   \cup {[op |-> "search", aut |-> [t |-> "prefix", p |-> p], lo |-> lo, hi |-> Unb] : p \in KeyU, lo \in {Unb} \cup {<<"ge", k>> : k \in KeyU}}
   \cup {[op |-> "search", aut |-> [t |-> "lev", q |-> q, d |-> dd, tr |-> tr, pre |-> pre], lo |-> Unb, hi |-> Unb] :
            q \in KeyU, dd \in 0..1, tr \in BOOLEAN, pre \in BOOLEAN}
+  \* automata that accept the EMPTY key without accepting everything (the blocks are pruned for them: with
+  \* block length 0 the empty key has a block of its own), their other matches further on or nowhere
+  \cup {[op |-> "search", aut |-> [t |-> "re", ast |-> re], lo |-> Unb, hi |-> Unb] :
+           re \in {<<"eps">>, <<"opt", <<"lit", 0>>>>, <<"star", <<"lit", 0>>>>, <<"opt", <<"cat", <<"lit", 0>>, <<"lit", 0>>>>>>, <<"opt", <<"lit", 1>>>>,
+                    <<"star", <<"dot">>>>, <<"opt", <<"cat", <<"dot">>, <<"dot">>>>>>, <<"alt", <<"eps">>, <<"cat", <<"lit", 0>>, <<"dot">>>>>>}}
 
 \* ---- random operations ------------------------------------------------------------------
 Atoms == {<<"lit", 1>>, <<"lit", 127>>, <<"lit", 0>>, <<"dot">>, <<"eps">>}
@@ -84,8 +89,9 @@ Spoil(ks, i, dup) ==
 ChooseKeys ==
   /\ ~Exhaustive /\ phase = "keys"
   /\ \E n \in {Pick(0..MaxKeys)}, bad \in {Pick(1..8)}, i \in {Pick(1..MaxKeys)}, dup \in {Pick(BOOLEAN)} :
-       LET ks == SortKeySet(RandomSubset(n, KeyU)) IN
-       keys' = IF bad = 1 /\ n >= 1 THEN Spoil(ks, ((i - 1) % n) + 1, dup) ELSE ks
+       \* (one key set in four holds the empty key: it is the only key an automaton can accept at its start state)
+       LET ks == SortKeySet(RandomSubset(n, KeyU) \cup (IF i % 4 = 0 /\ n >= 1 THEN {<<>>} ELSE {})) IN
+       keys' = IF bad = 1 /\ n >= 1 THEN Spoil(ks, ((i - 1) % Len(ks)) + 1, dup) ELSE ks
   /\ phase' = "ops" /\ UNCHANGED <<bl, vk, ops>>
 AddOp ==
   /\ ~Exhaustive /\ phase = "ops" /\ Len(ops) < MaxOps
